@@ -13,6 +13,8 @@ THEOREMS = [
     "Remoc.Table.allocInv_alloc",
     "Remoc.Table.allocInv_handleRx",
     "Remoc.Table.terminate_iff",
+    "Remoc.Table.Sys.no_frame_for_absent_port",
+    "Remoc.Table.Sys.freed_port_unreferenced",
 ]
 RULE = ("settle-separated scripts on two real endpoints: concurrent connects (wait and no-wait), accepts, inspected requests "
         "accepted/rejected/dropped, port batches over ports, cancelled calls, drops of senders/receivers/clients/listeners in "
